@@ -103,6 +103,13 @@ theorem planCode_nat (op : BOp) (p : Plan) :
   unfold planCode
   by_cases h1 : p.spill = true <;> by_cases h2 : p.save = true <;> simp [h1, h2, hl, opCode_nat]
 
+theorem shiftCode_nat (st : ES) (t : ET) (left : Bool) (k : Nat) :
+    shiftCode (f n) (fun a => f (r a)) st t left k = (shiftCode n r st t left k).map fun p => (p.1, f p.2) := by
+  have hl : ∀ t, loadLeft (f n) (fun a => f (r a)) t = (loadLeft n r t).map fun p => (p.1, f p.2) := by
+    intro t; cases t <;> simp [loadLeft, loadA_nat]
+  unfold shiftCode
+  by_cases h2 : shSave st t = true <;> simp [h2, hl]
+
 theorem genE_nat : ∀ (e : GExpr) (st : ES),
     genE (f n) (fun a => f (r a)) st e = (genE n r st e).map fun x => (x.1.map (fun p => (p.1, f p.2)), x.2) := by
   intro e
@@ -124,6 +131,18 @@ theorem genE_nat : ∀ (e : GExpr) (st : ES),
         cases hp : plan s2 tl op tr with
         | none => simp
         | some p => simp [planCode_nat]
+
+  | sh e left k ih =>
+    intro st
+    simp only [genE, ih st]
+    cases he : genE n r st e with
+    | none => simp
+    | some x =>
+      obtain ⟨c1, t1, s1⟩ := x
+      simp only [Option.map_some]
+      by_cases hok : shiftOK s1 t1 k = true
+      · simp [hok, shiftCode_nat]
+      · simp [hok]
 
 theorem exprCode_nat (v : LV) (e : GExpr) :
     exprCode (f n) (fun a => f (r a)) v e = (exprCode n r v e).map fun p => (p.1, f p.2) := by
@@ -790,6 +809,212 @@ theorem genCondEx_correct (L : Layout) (g : GState) (l r : RA) (op : COp) (negat
         | x => simp [RA.isRegEl, RA.isReg] at hel
         | y => simp [RA.isRegEl, RA.isReg] at hel
 
+/-! ### comparisons with a tree operand (stage 12) -/
+
+/-- the code of a quiet accepted tree: runs to its end, changes nothing the source sees, leaves the tree's value in A
+    with Z describing it -/
+theorem treeOps_run (L : Layout) (e : GExpr) (hok : e.ok = true) (hq : quietE {} e = true) (s : Cpu) :
+    ∃ s', execSeq s ((treeOps e).map fun p => (p.1, opdOf L p.2)) = some s' ∧ srcOf s' = srcOf s ∧ s'.sp = s.sp ∧
+      s'.a = treeVal L (srcOf s) e ∧ GenReg.ZA s' := by
+  have hne : ∀ a, e ≠ .atom a := by intro a h; subst h; simp [GExpr.ok] at hok
+  obtain ⟨c, st', hg⟩ := (genE_ok_iff (none : Option Atom) (fun a => some a) e hne).1 hok
+  have hnat := genE_nat (opdOf L) (none : Option Atom) (fun a => some a) e {}
+  rw [hg] at hnat
+  have hg' : genE Opd.none (opd L) {} e = some (c.map (fun p => (p.1, opdOf L p.2)), .acc, st') := by
+    simpa [opdOf] using hnat
+  obtain ⟨s', q, ev, ex, hm, ha, hz⟩ := genE_exec L e {} _ .acc st' hg' s (by intro h; cases h)
+  have hacc := (genE_acc Opd.none (opd L) _ _ _ _ _ hg').2 rfl
+  have hq1 := evalE_quiet L e (srcOf s) s.a {} q .acc st' hq ev
+  have hirr := evalE_acc_irrelevant L e (srcOf s) s.a 0 {} (by intro h; cases h)
+  rw [ev] at hirr
+  have hto : treeOps e = c := by simp [treeOps, hg]
+  refine ⟨s', by rw [hto]; exact ex, by rw [hm, hq1], ?_, ?_, hz hacc⟩
+  · exact congrArg SrcSt.sp (hm.trans hq1)
+  · unfold treeVal
+    cases h0 : evalE L (srcOf s) 0 {} e with
+    | none => rw [h0] at hirr; exact hirr.elim
+    | some y =>
+      obtain ⟨⟨σ2, a2⟩, t2, st2⟩ := y
+      obtain ⟨σq, aq⟩ := q
+      rw [h0] at hirr
+      simp only at hirr
+      obtain ⟨_, ht, hs, hv⟩ := hirr
+      subst ht; subst hs
+      rw [ha]
+      exact hv hacc
+
+theorem treeLines_eq (e : GExpr) : treeLines e = (treeOps e).map fun p => GLine.ins p.1 p.2 := rfl
+
+/-- a tree in A against a memory operand or constant -/
+theorem cmpETest_correct (L : Layout) (g : GState) (op : COp) (e : GExpr) (b : Atom) (eLeft negate : Bool) (label : Lbl)
+    (hok : e.ok = true) (hq : quietE {} e = true) (hz0 : (op.ordered && RA.isZero (.of b)) = false) :
+    CondSpec L g (cmpETest g op e b eLeft negate label) label (fun m => evalCond L m (.cmpE op e b eLeft) != negate) := by
+  have hcongr : ∀ m : SrcSt, (finalOp op negate (!eLeft)).eval (treeVal L m e) (val L m.mem m.x m.y b)
+      = (evalCond L m (.cmpE op e b eLeft) != negate) := by
+    intro m
+    cases eLeft with
+    | true => simpa [evalCond] using finalOp_eval op negate false (treeVal L m e) (val L m.mem m.x m.y b)
+    | false => simpa [evalCond] using finalOp_eval op negate true (val L m.mem m.x m.y b) (treeVal L m e)
+  refine CondSpec.congr hcongr ?_
+  intro pre post s t hold hinv hl
+  obtain ⟨s1, he, hsrc, hsp, ha, hza⟩ := treeOps_run L e hok hq s
+  by_cases hzb : RA.isZero (.of b) = true
+  · -- compared with literal 0: the flags describe A
+    have hun : op.ordered = false := by
+      cases h : op.ordered
+      · rfl
+      · simp [h, hzb] at hz0
+    have hvb : val L (srcOf s).mem (srcOf s).x (srcOf s).y b = 0 := isZero_val L _ _ _ b hzb
+    have hz1 : s1.f.z = (treeVal L (srcOf s) e == 0) := by rw [← ha]; exact hza
+    rcases finalOp_unordered op negate (!eLeft) hun with hop | hop
+    · simp only [cmpETest, hzb, if_true, hop] at hl ⊢
+      have h12 := steps_of_execSeq L (treeOps e) pre ([.br .BEQ label] ++ post) s s1 he
+      rw [← treeLines_eq] at h12
+      have w : pre ++ treeLines e ++ ([GLine.br .BEQ label] ++ post) = pre ++ (treeLines e ++ [GLine.br .BEQ label]) ++ post := by simp
+      rw [w] at h12
+      have hl' : findLbl ((pre ++ treeLines e) ++ [GLine.br .BEQ label] ++ post) label = some t := by
+        simpa [List.append_assoc] using hl
+      have h3 := br_step L (pre ++ treeLines e) [.br .BEQ label] post 0 .BEQ label s1 (treeVal L (srcOf s) e == 0) t rfl
+        (by simp [Cpu.taken, hz1]) hl'
+      have w2 : (pre ++ treeLines e) ++ [GLine.br .BEQ label] ++ post = pre ++ (treeLines e ++ [GLine.br .BEQ label]) ++ post := by simp
+      rw [w2] at h3
+      refine ⟨s1, ?_, hsrc, hsp, trivial⟩
+      rw [hvb]
+      have hlen : (treeLines e).length = (treeOps e).length := by rw [treeLines_eq]; simp
+      have := h12.trans (h3.cast (by len_arith) rfl)
+      simpa [COp.eval, List.length_append, hlen, Nat.add_assoc] using this
+    · simp only [cmpETest, hzb, if_true, hop] at hl ⊢
+      have h12 := steps_of_execSeq L (treeOps e) pre ([.br .BNE label] ++ post) s s1 he
+      rw [← treeLines_eq] at h12
+      have w : pre ++ treeLines e ++ ([GLine.br .BNE label] ++ post) = pre ++ (treeLines e ++ [GLine.br .BNE label]) ++ post := by simp
+      rw [w] at h12
+      have hl' : findLbl ((pre ++ treeLines e) ++ [GLine.br .BNE label] ++ post) label = some t := by
+        simpa [List.append_assoc] using hl
+      have h3 := br_step L (pre ++ treeLines e) [.br .BNE label] post 0 .BNE label s1 (!(treeVal L (srcOf s) e == 0)) t rfl
+        (by simp [Cpu.taken, hz1]) hl'
+      have w2 : (pre ++ treeLines e) ++ [GLine.br .BNE label] ++ post = pre ++ (treeLines e ++ [GLine.br .BNE label]) ++ post := by simp
+      rw [w2] at h3
+      refine ⟨s1, ?_, hsrc, hsp, trivial⟩
+      rw [hvb]
+      have hlen : (treeLines e).length = (treeOps e).length := by rw [treeLines_eq]; simp
+      have := h12.trans (h3.cast (by len_arith) rfl)
+      simpa [COp.eval, bne, List.length_append, hlen, Nat.add_assoc] using this
+  · -- CMP b, then the branches
+    have hzb' : RA.isZero (.of b) = false := by simpa using hzb
+    let op' := finalOp op negate (!eLeft)
+    let br := branchInstr { g with flags := none } op' label
+    have hcode : (cmpETest g op e b eLeft negate label).1 = (treeLines e ++ [GLine.ins .CMP (some b)]) ++ br.1 := by
+      simp [cmpETest, hzb', br, op']
+    have hst : (cmpETest g op e b eLeft negate label).2 = br.2 := by
+      simp [cmpETest, hzb', br, op']
+    rw [hcode] at hl ⊢
+    -- the tree, then the compare, as one straight-line piece
+    let ops := treeOps e ++ [(Mn.CMP, some b)]
+    have hrd := rd_opd L s1 b
+    have he2 : execSeq s ((ops).map fun p => (p.1, opdOf L p.2)) = some (s1.cmp s1.a (val L s1.mem s1.x s1.y b)) := by
+      have hsplit : (ops).map (fun p => (p.1, opdOf L p.2))
+          = (treeOps e).map (fun p => (p.1, opdOf L p.2)) ++ [(Mn.CMP, opd L b)] := by simp [ops, opdOf]
+      rw [hsplit, execSeq_append', he]
+      simp [execSeq, Cpu.exec, hrd]
+    have hlines : treeLines e ++ [GLine.ins .CMP (some b)] = ops.map fun p => GLine.ins p.1 p.2 := by
+      simp [ops, treeLines_eq]
+    have h12 := steps_of_execSeq L ops pre (br.1 ++ post) s _ he2
+    rw [← hlines] at h12
+    have w : pre ++ (treeLines e ++ [GLine.ins .CMP (some b)]) ++ (br.1 ++ post)
+        = pre ++ ((treeLines e ++ [GLine.ins .CMP (some b)]) ++ br.1) ++ post := by simp
+    rw [w] at h12
+    have hlab : labels (treeLines e ++ [GLine.ins .CMP (some b)]) = [] := by simp [labels_treeLines]
+    have hold' : Old { g with flags := none } (pre ++ (treeLines e ++ [GLine.ins .CMP (some b)])) := by
+      rw [old_flags]
+      intro l hl
+      simp [hlab] at hl; exact hold l hl
+    have hl' : findLbl ((pre ++ (treeLines e ++ [GLine.ins .CMP (some b)])) ++ br.1 ++ post) label = some t := by
+      simpa [List.append_assoc] using hl
+    have hmem : val L s1.mem s1.x s1.y b = val L (srcOf s).mem (srcOf s).x (srcOf s).y b := by
+      rw [← hsrc]; rfl
+    have hzf : (s1.cmp s1.a (val L s1.mem s1.x s1.y b)).f.z = (treeVal L (srcOf s) e == val L (srcOf s).mem (srcOf s).x (srcOf s).y b) := by
+      rw [← hmem, ← ha]
+      simp [Cpu.cmp, Cpu.setNZ]
+      exact sub_beq_zero _ _
+    have hcf : (s1.cmp s1.a (val L s1.mem s1.x s1.y b)).f.c
+        = decide ((val L (srcOf s).mem (srcOf s).x (srcOf s).y b).toNat ≤ (treeVal L (srcOf s) e).toNat) := by
+      rw [← hmem, ← ha]
+      simp [Cpu.cmp]
+    have h3 := branchInstr_steps L { g with flags := none } op' label (pre ++ (treeLines e ++ [GLine.ins .CMP (some b)])) post _ t
+      (treeVal L (srcOf s) e) (val L (srcOf s).mem (srcOf s).x (srcOf s).y b) hzf hcf hold' hl'
+    have w2 : (pre ++ (treeLines e ++ [GLine.ins .CMP (some b)])) ++ br.1 ++ post
+        = pre ++ ((treeLines e ++ [GLine.ins .CMP (some b)]) ++ br.1) ++ post := by simp
+    rw [w2] at h3
+    have hlen : (treeLines e ++ [GLine.ins .CMP (some b)]).length = ops.length := by rw [hlines]; simp
+    refine ⟨s1.cmp s1.a (val L s1.mem s1.x s1.y b), ?_, ?_, ?_, ?_⟩
+    · show Steps L _ pre.length s (if op'.eval (treeVal L (srcOf s) e) (val L (srcOf s).mem (srcOf s).x (srcOf s).y b) = true then t else _) _
+      rcases Bool.eq_false_or_eq_true (op'.eval (treeVal L (srcOf s) e) (val L (srcOf s).mem (srcOf s).x (srcOf s).y b)) with hev | hev
+      · simp only [hev, if_true] at h3 ⊢
+        exact h12.trans (h3.cast (by rw [List.length_append, hlen]) rfl)
+      · simp only [hev, Bool.false_eq_true, if_false] at h3 ⊢
+        exact h12.trans (h3.cast (by rw [List.length_append, hlen]) (by simp only [List.length_append, br]; omega))
+    · rw [← hsrc]; rfl
+    · rw [← hsp]; rfl
+    · rw [hst]
+      show FlagsInv L (branchInstr { g with flags := none } op' label).2.flags _
+      rw [branchInstr_flags_none]; trivial
+
+/-- `if (e)` for a tree -/
+theorem truthETest_correct (L : Layout) (g : GState) (e : GExpr) (negate : Bool) (label : Lbl)
+    (hok : e.ok = true) (hq : quietE {} e = true) :
+    CondSpec L g (truthETest g e negate label) label (fun m => evalCond L m (.truthE e) != negate) := by
+  intro pre post s t hold hinv hl
+  obtain ⟨s1, he, hsrc, hsp, ha, hza⟩ := treeOps_run L e hok hq s
+  let ops : List (Mn × Option Atom) := treeOps e ++ (if e.topArithm then [] else [(Mn.CMP, some (Atom.const 0))])
+  have hrun : ∃ s2, execSeq s (ops.map fun p => (p.1, opdOf L p.2)) = some s2 ∧ srcOf s2 = srcOf s ∧ s2.sp = s.sp ∧
+      s2.f.z = (treeVal L (srcOf s) e == 0) := by
+    by_cases htop : e.topArithm = true
+    · refine ⟨s1, ?_, hsrc, hsp, by rw [← ha]; exact hza⟩
+      simp only [ops, htop, if_true, List.append_nil]; exact he
+    · have htop' : e.topArithm = false := by simpa using htop
+      refine ⟨s1.cmp s1.a 0, ?_, by rw [← hsrc]; rfl, by rw [← hsp]; rfl, ?_⟩
+      · have hsplit : ops.map (fun p => (p.1, opdOf L p.2))
+            = (treeOps e).map (fun p => (p.1, opdOf L p.2)) ++ [(Mn.CMP, Opd.imm 0)] := by
+          simp [ops, htop', opdOf, opd]
+        rw [hsplit, execSeq_append', he]
+        simp [execSeq, Cpu.exec, Cpu.rd]
+      · rw [← ha]
+        simp [Cpu.cmp, Cpu.setNZ]
+  obtain ⟨s2, he2, hsrc2, hsp2, hz2⟩ := hrun
+  let pl : List GLine := treeLines e ++ (if e.topArithm then [] else [GLine.ins .CMP (some (.const 0))])
+  have hlines : pl = ops.map fun p => GLine.ins p.1 p.2 := by
+    by_cases htop : e.topArithm = true <;> simp [pl, ops, htop, treeLines_eq]
+  let mn : Mn := if negate then .BEQ else .BNE
+  have hcode : (truthETest g e negate label).1 = pl ++ [GLine.br mn label] := by
+    simp [truthETest, pl, mn]
+  rw [hcode] at hl ⊢
+  have h12 := steps_of_execSeq L ops pre ([GLine.br mn label] ++ post) s s2 he2
+  rw [← hlines] at h12
+  have w : pre ++ pl ++ ([GLine.br mn label] ++ post) = pre ++ (pl ++ [GLine.br mn label]) ++ post := by simp
+  rw [w] at h12
+  have hl' : findLbl ((pre ++ pl) ++ [GLine.br mn label] ++ post) label = some t := by
+    simpa [List.append_assoc] using hl
+  have hlen : pl.length = ops.length := by rw [hlines]; simp
+  have w2 : (pre ++ pl) ++ [GLine.br mn label] ++ post = pre ++ (pl ++ [GLine.br mn label]) ++ post := by simp
+  refine ⟨s2, ?_, hsrc2, hsp2, trivial⟩
+  cases negate with
+  | true =>
+    have h3 := br_step L (pre ++ pl) [.br .BEQ label] post 0 .BEQ label s2 (treeVal L (srcOf s) e == 0) t rfl
+      (by simp [Cpu.taken, hz2]) (by simpa [mn] using hl')
+    have hmn : mn = .BEQ := rfl
+    rw [hmn] at h12 w2 ⊢
+    rw [w2] at h3
+    have := h12.trans (h3.cast (by len_arith) rfl)
+    simpa [evalCond, bne, List.length_append, hlen, Nat.add_assoc] using this
+  | false =>
+    have h3 := br_step L (pre ++ pl) [.br .BNE label] post 0 .BNE label s2 (!(treeVal L (srcOf s) e == 0)) t rfl
+      (by simp [Cpu.taken, hz2]) (by simpa [mn] using hl')
+    have hmn : mn = .BNE := rfl
+    rw [hmn] at h12 w2 ⊢
+    rw [w2] at h3
+    have := h12.trans (h3.cast (by len_arith) rfl)
+    simpa [evalCond, bne, List.length_append, hlen, Nat.add_assoc] using this
+
 /-- the specification of condition code with several tests: as `CondSpec`, except that on the jumping exit
     the flag belief is claimed only when a single test jumps there (`single`) -/
 def CondSpecM (L : Layout) (g : GState) (r : List GLine × GState) (label : Lbl) (single : Bool) (jumpIf : SrcSt → Bool) : Prop :=
@@ -927,6 +1152,14 @@ theorem genCond_correct (L : Layout) (c : Cond) : ∀ (g : GState) (negate : Boo
     intro m
     have := finalOp_eval .eq negate false (rval L m v.ra) 0
     simpa [evalCond, COp.eval] using this
+  | cmpE op e b eLeft =>
+    intro g negate label hok
+    simp only [CondOK, Bool.and_eq_true, Bool.not_eq_true'] at hok
+    exact (cmpETest_correct L g op e b eLeft negate label hok.1.1 hok.1.2 hok.2).toM
+  | truthE e =>
+    intro g negate label hok
+    simp only [CondOK, Bool.and_eq_true] at hok
+    exact (truthETest_correct L g e negate label hok.1 hok.2).toM
   | not c ih =>
     intro g negate label hok
     simp only [genCond, Cond.singleExit]
